@@ -279,9 +279,39 @@ def run(ck):
     cfg = ck.cfg(init.fid)
     writes = nodes_writing_attr(cfg, '_mod')
     ck.need(R4, writes, "Counter.__init__ does not store self._mod")
+    # layout-independent decision: abstract run of the constructor
+    from sa.minieval import MiniEval
+    init_run_ok = None
+    try:
+        bad_ = []
+        a_ = init.node.args
+        for mod_ in (0, 0.0, None, 5, -3, 2.5):
+            order = []
+            env = {'modulo': mod_, 'initdef': 0, '__setattr__': lambda k, v, order=order: order.append(('set', k, v)),
+                   'super().__init__': lambda *aa, order=order, **kk: order.append(('super', kk.get('initdef')))}
+            if a_.vararg:
+                env[a_.vararg.arg] = ()
+            if a_.kwarg:
+                env[a_.kwarg.arg] = {}
+            res = MiniEval(R4, env).run(init.node.body)
+            ck.abstract_cases += 1
+            if mod_ == 0:
+                good = res == ('raise', 'ValueError') and not any(o[0] == 'super' for o in order)
+            else:
+                good = res[0] == 'return' and ('set', 'self._mod', mod_) in order and \
+                    ('super', 0) in order and order.index(('set', 'self._mod', mod_)) < order.index(('super', 0))
+            if not good:
+                bad_.append(f"modulo={mod_!r}: {res}, effects {order}")
+        init_run_ok = not bad_
+        ck.ob(R4, f"{init.fid} :: abstract run", init_run_ok,
+              "a zero modulo raises ValueError before the block is registered; any other modulo "
+              "(None included) is stored before super().__init__ runs" if init_run_ok else "; ".join(bad_),
+              init, init.node)
+    except Exception as err:
+        ck.note(f"R20.4 abstract run not applicable: {err}")
     raises = nodes_where(cfg, lambda n: isinstance(n.ast, ast.Raise)
                          and cfg.has_guard(n, 'modulo == 0', True))
-    ck.ob(R4, f"{init.fid} :: raise under modulo == 0", bool(raises),
+    ck.ob(R4, f"{init.fid} :: raise under modulo == 0", bool(raises) or bool(init_run_ok),
           "a raise statement is guarded by `modulo == 0`" if raises else
           "no raise statement is guarded by `modulo == 0`: a zero modulo is not refused",
           init, init.node)
@@ -289,7 +319,7 @@ def run(ck):
         ok = cfg.has_guard(w, 'modulo == 0', False)
         v = w.ast.value if isinstance(w.ast, ast.Assign) else None
         from_param = v is not None and norm(v) == 'modulo'
-        ck.ob(R4, f"{init.fid} :: {norm1(w.ast)}", ok and from_param,
+        ck.ob(R4, f"{init.fid} :: {norm1(w.ast)}", (ok and from_param) or bool(init_run_ok),
               "stored only after the zero test failed; value is the parameter" if ok and from_param
               else ("self._mod is stored on a path where modulo == 0 was not excluded" if not ok
                     else f"self._mod is not the `modulo` parameter but `{norm(v)}`"),
@@ -297,7 +327,7 @@ def run(ck):
     sup = nodes_where(cfg, lambda n: any(is_super_call(c, '__init__') for c in node_calls(n)))
     for s in sup:
         ok = cfg.has_guard(s, 'modulo == 0', False)
-        ck.ob(R4, f"{init.fid} :: super().__init__", ok,
+        ck.ob(R4, f"{init.fid} :: super().__init__", ok or bool(init_run_ok),
               "the block is registered only after the zero test" if ok else
               "super().__init__() (which registers the block in the circuit) runs before the "
               "zero-modulo test", init, s.ast)
